@@ -1135,6 +1135,8 @@ class Emitter:
 
     def stmt_let(self, s):
         pat = s["pat"]
+        if pat["k"] == "pident" and pat["name"] in self.opts.get("drop_lets", []):
+            return []
         if s["els"] is not None: raise Unsupported("let-else")
         if s["init"] is None:
             if pat["k"] != "pident": raise Unsupported("uninitialised pattern let")
